@@ -26,6 +26,16 @@ WATCHDOG_S = {"quick": 900, "thorough": 4 * 3600}
 
 def check(case):
     res = CaseResult()
+    if any(k == "skip_feature" for _i, k in case["program"].get("hook_faults") or []):
+        from ..program import normalize
+        import copy
+        probe = copy.deepcopy(case["program"])
+        normalize(probe)
+        if any(not all_steps_of(f, i) for f, i in runcheck.instances(probe)):
+            # a scenario without steps that was run and is then covered by feature.skip() has no status of its
+            # own to keep: outside the statement
+            res.label("excluded:stepless-scenario-with-late-skip")
+            return res
     prog, ref, run = runcheck.run_and_ref(case["program"])
     if run.escaped is not None:
         res.fail("C09.escape", "exception escaped run(): %r" % (run.escaped,))
@@ -91,6 +101,10 @@ def check(case):
                 _container(res, "rule", rule["name"], robj.status.name, rinsts, selected)
 
     res.nontrivial = inherit_matters
+    if ref.skipped_by_hook:
+        res.label("excluded-at-run-time:" + sorted(ref.skipped_by_hook)[0][0])
+        if any(it["k"] == "o" for f in prog["features"] for it, _r in _items(f)):
+            res.label("excluded-at-run-time:with-outline")
     if inherit_matters:
         res.label("inheritance-matters")
     res.label("dialect:%s" % (cfg.get("dialect") or "none"))
@@ -165,6 +179,18 @@ def case_st(draw):
             elif item["tags"] and draw(st.integers(0, 2)) == 0:
                 feat["tags"] = [t for t in item["tags"] if "<" not in t][:2] or feat["tags"]
                 item["tags"] = [t for t in item["tags"] if "<" in t]
+    if not prog["cfg"].get("dry_run") and draw(st.integers(0, 3)) == 0:
+        # run-time exclusion (documented): feature.skip() / rule.skip() in the container's before-hook, or an
+        # after_scenario hook that skips the rest of its partly executed feature; what is excluded that way is
+        # deselected, everything else is decided by the tags alone
+        from ..program import normalize
+        normalize(prog)
+        conts = [["before_feature", f["name"]] for f in prog["features"]] + \
+                [["before_rule", it["name"]] for f in prog["features"] for it in f["items"] if it["k"] == "r"]
+        if draw(st.booleans()):
+            prog["hook_faults"] = [[draw(st.integers(0, 10000)), "skip_feature"]]
+        else:
+            prog["hook_faults_named"] = [draw(st.sampled_from(conts)) + ["skip"]]
     return {"program": prog}
 
 
@@ -175,10 +201,12 @@ def explore(rec):
 
 def required_labels(tier):
     return ["inheritance-matters", "dialect:v1", "dialect:v2", "dry-run", "no-skipped", "mixed-selection",
-            "parametrised-tag", "wildcard", "negation"]
+            "parametrised-tag", "wildcard", "negation", "excluded-at-run-time:feature", "excluded-at-run-time:rule",
+            "excluded-at-run-time:with-outline"]
 
 
 KNOWN_PREDICATES = {}
 
 
 RULE = RULE + " " + ('Configurations may give several --tags options (one per operand of a top-level and).')
+RULE = RULE + " " + ('A quarter of the non-dry programs exclude a container at run time (feature.skip() / rule.skip() in its before-hook, or context.feature.skip() in an after_scenario hook of a partly executed feature): what is excluded is expected skipped, unhooked and uncalled like a deselected scenario.')
